@@ -257,8 +257,21 @@ def check(ctx):
     zipped = [c for c in rec if len(c.args) == 2 and all(isinstance(a, ast.Name) for a in c.args)]
     ctx.check(bool(elementwise) or bool(zipped), "C17.R11", f"{cs.qualname}:elementwise", cs.node.body[0], "sequence elements are not compared pairwise", cs, cs.node, detail="compare_schemas(write[i], read[i])")
 
+    # ---------------- R12: "type" arrays have unique items
+    ctx.rule("C17.R12", "a `type` array folded from several alternatives is deduplicated (the meta-schema requires unique items)", floor=1)
+    vu = model.func("apischema.json_schema.schema.SchemaBuilder._visited_union")
+    n12 = 0
+    for c in ast.walk(vu.node):
+        if isinstance(c, ast.Call) and dotted(c.func) == "json_schema" and len(c.keywords) == 1 and c.keywords[0].arg == "type":
+            n12 += 1
+            v = c.keywords[0].value
+            dedup = "dict.fromkeys(" in norm(v) or norm(v).startswith("sorted(set(") or norm(v).startswith("list(set(") and False
+            ctx.check(dedup, "C17.R12", f"{vu.qualname}:type-list", c, f"`{short(c, 60)}`: the types of the alternatives are concatenated as is: Union[int, NewType('U', int)] or Union[str, Path] gives {{\"type\": [\"integer\", \"integer\"]}}, invalid against the meta-schema", vu, c, detail="list(dict.fromkeys(types))")
+    ctx.require(n12 >= 1, "_visited_union: folded type list not found")
+
 
 def mutants(mb):
+    mb.add_text("type-list-with-duplicates", "apischema/json_schema/schema.py", "            return json_schema(type=list(dict.fromkeys(types)))\n", "            return json_schema(type=list(types))\n", "C17.R12", "type-list")
     mb.add_text("compare-schemas-zip-truncates", "apischema/json_schema/schema.py", "        if not isinstance(read, Sequence) or len(write) != len(read):\n            raise ValueError\n        return [compare_schemas(write[i], read[i]) for i in range(len(write))]", "        if not isinstance(read, Sequence):\n            raise ValueError\n        return [compare_schemas(w, r) for w, r in zip(write, read)]", "C17.R11", "sequence-length")
     mb.add_text("compare-schemas-leaf-accepts", "apischema/json_schema/schema.py", "        if not write == read:\n            raise ValueError\n        return write", "        return write", "C17.R11", "leaf")
     mb.add_text("parent-self-reference", "apischema/json_schema/schema.py", "            if discriminator_parent is not cls:\n                discriminator_ref = self.ref_schema(\n                    get_type_name(discriminator_parent).json_schema\n                )\n                assert discriminator_ref is not None\n                result.append(discriminator_ref)\n", "            discriminator_ref = self.ref_schema(\n                get_type_name(discriminator_parent).json_schema\n            )\n            assert discriminator_ref is not None\n            result.append(discriminator_ref)\n", "C17.R10", "discriminator_ref")
